@@ -67,7 +67,7 @@ type obs struct {
 	Elapsed time.Duration
 }
 
-var frameRe = regexp.MustCompile(`github\.com/pentops/j5/[^\s(]+`)
+var frameRe = regexp.MustCompile(`github\.com/pentops/j5/[^\s]+?(\(\*?\w+\))?[.\w]*`)
 
 func panicSite(stack string) string {
 	for _, line := range strings.Split(stack, "\n") {
@@ -76,6 +76,9 @@ func panicSite(stack string) string {
 		}
 		if m := frameRe.FindString(line); m != "" {
 			m = strings.TrimPrefix(m, "github.com/pentops/j5/")
+			if i := strings.Index(m, "(0x"); i >= 0 {
+				m = m[:i]
+			}
 			return m
 		}
 	}
@@ -92,7 +95,7 @@ func panicClass(p string) string {
 	return p
 }
 
-const callDeadline = 20 * time.Second
+const callDeadline = 60 * time.Second
 
 func guarded(f func() (protoreflect.Message, error)) obs {
 	done := make(chan obs, 1)
